@@ -1,3 +1,4 @@
+mod acc;
 mod analysis;
 mod check;
 mod dispatch;
